@@ -6,7 +6,7 @@
    first, invalid and insane blocks included) and every parameter set.
    The model has no wall clock: orphan expiry (one hour) is outside. *)
 From Coq Require Import ZArith NArith Bool List.
-From ELA Require Import model.Chain proof.C12_Struct proof.C12_Chain.
+From ELA Require Import model.Chain proof.C12_Struct proof.C12_Chain proof.C30_Irr proof.C12_Orphans proof.C12_Refused.
 Import ListNotations.
 Local Open Scope Z_scope.
 
@@ -98,6 +98,55 @@ Proof.
 Qed.
 Print Assumptions C12_orphans_eventually_connected_refuted.
 
+(* ... but it is TRUE when every delivered block is sane and valid (declared
+   heights consistent, ids identify blocks, none uses the genesis id) and the
+   number of deliveries does not exceed the orphan cap (so nothing is evicted;
+   the model has no clock: deliveries within the expiry hour): after ANY
+   delivery order (duplicates, orphans first) no orphan's parent is indexed,
+   every delivered block is indexed or still waiting in the pool, and every
+   delivered block all of whose ancestors were delivered ([rooted]) is indexed.
+   Together with C12_best_is_heaviest_valid (which holds for every order): such
+   a block has at most the tip's work, or the guard refused it. *)
+Theorem C12_orphans_eventually_connected : forall p bs,
+  blocks_ok bs ->
+  (forall b b', In b bs -> In b' bs -> b_id b = b_id b' -> b = b') ->
+  (length bs <= p_cap p)%nat ->
+  let s := run p init bs in
+  (forall o, In o (orphans s) -> has_id (b_parent o) (index s) = false) /\
+  (forall b, In b bs -> has_id (b_id b) (index s) = true \/ In b (orphans s)) /\
+  (forall b, rooted bs b -> has_id (b_id b) (index s) = true).
+Proof. exact orphans_connected. Qed.
+Print Assumptions C12_orphans_eventually_connected.
+
+(* Whatever is delivered: a known node with strictly more work than the tip
+   exists only if a reorganisation failed half-way, or the irreversibility
+   guard refused that node when it arrived - and then the log holds the values
+   IsIrreversible saw (tip height cur, detach count d, LIH l) and answered true
+   on.  What that answer means is C12_guard_excludes. *)
+Theorem C12_heavier_only_if_refused_or_failed : forall p bs,
+  let s := run p init bs in
+  forall n, In n (index s) -> n_worksum (tip s) < n_worksum n ->
+    no_failed_switch s = false \/
+    exists cur d l dpos, In (EvRefused (n_id n) cur d l) (evlog s) /\
+      is_irreversible p dpos l cur d = true /\ 0 <= d <= cur.
+Proof. exact heavier_only_if_refused_or_failed. Qed.
+Print Assumptions C12_heavier_only_if_refused_or_failed.
+
+(* What the guard excludes (more than "would detach a block at or below LIH"):
+   above CRCOnlyDPOSHeight it refuses a reorganisation of depth d from tip height
+   cur iff the fork point cur-d is AT or below LIH (fork point = LIH would only
+   detach LIH+1..), or the depth is >= 6 in DPoS mode from RevertToPOWStartHeight
+   on, or > 6 before that height. *)
+Theorem C12_guard_excludes : forall p dpos l cur d,
+  0 <= d <= cur -> cur < 4294967296 ->
+  is_irreversible p dpos l cur d = true <->
+  p_crc_only p < cur /\
+  (cur - d <= l \/
+   (p_revert_start p <= cur /\ dpos = true /\ 6 <= d) \/
+   (cur < p_revert_start p /\ 6 < d)).
+Proof. exact guard_char. Qed.
+Print Assumptions C12_guard_excludes.
+
 (* Every block is indexed at most once, whatever is delivered (the
    BlockExists / orphan-pool checks are sufficient). *)
 Theorem C12_index_unique : forall p bs,
@@ -118,3 +167,29 @@ Example C12_nonvacuous :
   no_failed_switch (run p init bs) = true /\
   evlog (run p init bs) = [EvReorg 0 [2; 1] [11; 12; 13]%N true].
 Proof. vm_compute. repeat split; try reflexivity. repeat constructor. Qed.
+
+(* Non-vacuity of the orphan theorem: the 5 valid blocks [ex_blocks]
+   (13->12->11->g and 2->1->g, delivered leaves first) satisfy the hypotheses,
+   all are rooted, and the run leaves the pool empty with tip 13. *)
+Example C12_orphans_nonvacuous :
+  let p := mkParams 1000 2000 10 in
+  blocks_ok ex_blocks /\ (length ex_blocks <= p_cap p)%nat /\
+  Forall (rooted ex_blocks) ex_blocks /\
+  orphans (run p init ex_blocks) = [] /\ tip_id (run p init ex_blocks) = 13%N.
+Proof.
+  split; [exact ex_blocks_ok|]. split; [vm_compute; repeat constructor|].
+  split; [exact ex_rooted|]. vm_compute. split; reflexivity.
+Qed.
+
+(* Non-vacuity of the refusal theorem: the deep fork of C30_nonvacuous is
+   heavier than the tip and was refused (DPoS mode, depth 7 >= 6). *)
+Example C12_refused_nonvacuous :
+  let p := mkParams 1 7 10 in
+  let b := fun id par h => mkBlock id par (Z.of_N h) 1 true true true false in
+  let bs := [b 1 0 1; b 2 1 2; b 3 2 3; b 4 3 4; b 5 4 5; b 6 5 6; b 7 6 7; b 8 7 8; b 9 8 9; b 10 9 10;
+             b 204 3 4; b 205 204 5; b 206 205 6; b 207 206 7; b 208 207 8; b 209 208 9; b 210 209 10; b 211 210 11]%N in
+  let s := run p init bs in
+  no_failed_switch s = true /\ tip_id s = 10%N /\ n_worksum (tip s) = 10 /\
+  existsb (fun n => 10 <? n_worksum n) (index s) = true /\
+  evlog s = [EvRefused 211 10 7 4] /\ is_irreversible p true 4 10 7 = true.
+Proof. vm_compute. repeat split; reflexivity. Qed.
